@@ -26,6 +26,8 @@ def table_entries(mod, name):
     lit = mod.table(name)
     from ..flow import dict_entries
     ent = dict_entries(lit)
+    if ent is None and isinstance(lit, ast.Call) and isinstance(lit.func, ast.Name) and not lit.args and not lit.keywords:
+        ent = _builder_entries(mod, lit.func.id)
     if ent is None:
         raise AnalysisError("%s is not a statically known table" % name)
     for k, v in ent:
@@ -52,6 +54,68 @@ def table_entries(mod, name):
                     for k, v in zip(a.keys, a.values):
                         out.append((const_value(k), norm(v), n))
     return out
+
+
+def _builder_entries(mod, fname):
+    """entries of a table put together by a module-level builder function without parameters: a literal list of pairs / dict, entries
+    added one by one (possibly under a condition - an optional format, like the try/else at module level), returned as is or through
+    dict().  None when the body is anything else."""
+    fns = [n for n in mod.tree.body if isinstance(n, ast.FunctionDef) and n.name == fname]
+    if len(fns) != 1 or fns[0].args.args or fns[0].args.kwonlyargs or fns[0].args.vararg or fns[0].args.kwarg:
+        return None
+    tabs = {}
+    result = []
+
+    def pair(e):
+        if isinstance(e, (ast.Tuple, ast.List)) and len(e.elts) == 2 and isinstance(const_value(e.elts[0]), str):
+            return (const_value(e.elts[0]), e.elts[1])
+        return None
+
+    def literal(e):
+        from ..flow import dict_entries
+        if isinstance(e, (ast.List, ast.Tuple)):
+            ps = [pair(x) for x in e.elts]
+            return None if any(p_ is None for p_ in ps) else ps
+        if isinstance(e, ast.Call) and isinstance(e.func, ast.Name) and e.func.id in ("dict", "list", "OrderedDict") and len(e.args) == 1 and not e.keywords:
+            return literal(e.args[0])
+        if isinstance(e, ast.Name) and e.id in tabs:
+            return list(tabs[e.id])
+        return dict_entries(e)
+
+    def run(stmts):
+        for st in stmts:
+            if isinstance(st, ast.Expr) and isinstance(st.value, ast.Constant):
+                continue
+            if isinstance(st, ast.Assign) and len(st.targets) == 1 and isinstance(st.targets[0], ast.Name):
+                v = literal(st.value)
+                if v is None:
+                    return False
+                tabs[st.targets[0].id] = v
+            elif isinstance(st, ast.Assign) and len(st.targets) == 1 and isinstance(st.targets[0], ast.Subscript) and isinstance(st.targets[0].value, ast.Name) \
+                    and st.targets[0].value.id in tabs and isinstance(const_value(st.targets[0].slice), str):
+                tabs[st.targets[0].value.id].append((const_value(st.targets[0].slice), st.value))
+            elif isinstance(st, ast.Expr) and isinstance(st.value, ast.Call) and isinstance(st.value.func, ast.Attribute) and isinstance(st.value.func.value, ast.Name) \
+                    and st.value.func.value.id in tabs and st.value.func.attr == "append" and len(st.value.args) == 1 and pair(st.value.args[0]):
+                tabs[st.value.func.value.id].append(pair(st.value.args[0]))
+            elif isinstance(st, ast.If):
+                if not run(st.body) or not run(st.orelse):
+                    return False
+            elif isinstance(st, ast.Try):
+                if not run(st.body) or not run(st.orelse) or any(not run(h.body) for h in st.handlers):
+                    return False
+            elif isinstance(st, ast.Pass):
+                continue
+            elif isinstance(st, ast.Return) and st.value is not None:
+                v = literal(st.value)
+                if v is None:
+                    return False
+                result.append(v)
+            else:
+                return False
+        return True
+    if not run(fns[0].body) or len(result) != 1:
+        return None
+    return result[0]
 
 
 def _anc(n):
@@ -496,6 +560,24 @@ def _path_eval(func, env, truth, stop_at=None):
     return ev
 
 
+def _from_member_list(dflow, e, at, depth=0):
+    """the member name may be taken from the archive's own list of members (namelist / infolist): looked for through the definitions
+    of a name and both arms of a conditional expression"""
+    if depth > 3:
+        return False
+    if isinstance(e, ast.IfExp):
+        return _from_member_list(dflow, e.body, at, depth + 1) or _from_member_list(dflow, e.orelse, at, depth + 1)
+    if isinstance(e, ast.Name):
+        for d_ in dflow.defs(e.id, at):
+            if isinstance(d_, ast.Assign):
+                v_ = dflow._def_value(d_, e.id)
+                if v_ is not None and _from_member_list(dflow, v_, d_, depth + 1):
+                    return True
+        return False
+    src_ = dflow.resolve(e, at=at, depth=2)
+    return "namelist()" in str(norm(src_)) or "infolist()" in str(norm(src_))
+
+
 def rule_zipname(ctx):
     ctx.rule("C12.zipname", "T5/T6", "the archive member written and the member opened are the same function of the name")
     ca = ctx.func(UTILS, "compress_as")
@@ -548,6 +630,11 @@ def rule_zipname(ctx):
         t = str(t).replace('"', "'")
         if t.startswith("not is_compression_format") or (" not in " in t and "len(" in t and "== 1" in t):
             return False
+        import re as _re2
+        if _re2.fullmatch(r"\w+ in \w+", t):
+            return True         # the expected member is present (the path the round trip takes)
+        if _re2.fullmatch(r"\w+ not in \w+", t):
+            return False
         if t.endswith(" == 'zip'") and " " not in t[:-len(" == 'zip'")]:
             return True         # the member is opened on the zip path
         if t.endswith(" != 'zip'") and " " not in t[:-len(" != 'zip'")]:
@@ -558,14 +645,7 @@ def rule_zipname(ctx):
     want = _Name((False, True, False))
     # a reader that falls back to the ONLY member of the archive finds whatever single member the writer stored: the names then only
     # have to agree for archives the reader's fall-back does not cover (none: compress_as writes exactly one member)
-    mname0 = member[1].id if isinstance(member[1], ast.Name) else None
-    has_fallback = False
-    if mname0 is not None:
-        for d_ in dflow.defs(mname0, member[0]):
-            if isinstance(d_, ast.Assign):
-                src_ = dflow.resolve(d_.value, at=d_, depth=2)
-                if "namelist()" in str(norm(src_)) or "infolist()" in str(norm(src_)):
-                    has_fallback = True
+    has_fallback = _from_member_list(dflow, member[1], member[0])
     one_member = len([c_ for c_ in calls_in(ca.node, "write") if any(k_.arg == "arcname" for k_ in c_.keywords)]) == 1
     covered = has_fallback and one_member
     ctx.ob("compress_as.arcname", wv == want or covered, "member written = %s -> %s%s" % (norm(arc[1]), _show(wv), "  [reader falls back to the only member]" if covered and wv != want else ""),
@@ -576,15 +656,7 @@ def rule_zipname(ctx):
            node=member[0], func=de)
     # an archive that was RENAMED after it was written (FileSet.move without convert renames the file) keeps the old member name: the
     # reader falls back to the only member of the archive
-    mname = member[1].id if isinstance(member[1], ast.Name) else None
-    fallback = False
-    if mname is not None:
-        for d_ in dflow.defs(mname, member[0]):
-            if isinstance(d_, ast.Assign):
-                v_ = str(norm(d_.value))
-                src_ = dflow.resolve(d_.value, at=d_, depth=2)
-                if "namelist()" in str(norm(src_)) or "infolist()" in str(norm(src_)):
-                    fallback = True
+    fallback = has_fallback
     ctx.ob("decompress.renamed_archive", fallback, "member name re-bound from the archive's own list of members: %s" % fallback,
            "when the expected member is missing and the archive holds exactly one member, that member is read (a .zip moved to another name by FileSet.move was unreadable: "
            "KeyError, no item named ... in the archive)", node=member[0], func=de,
